@@ -457,7 +457,7 @@ ENV_DOMAIN = {"f_env": {"VERIF_X": (None, "1", "2")}}
 
 # -- generated dependency graphs for C11 ---------------------------------------------------------
 
-def f_needgraph(needs=("DEFAULT", "DEFAULT"), edges=((), ()), amended=0, subplan=0):
+def f_needgraph(needs=("DEFAULT", "DEFAULT"), edges=((), ()), amended=0, subplan=0, v=1):
     """Step i writes o{i} (o0 in the root, later ones under d/) from src.txt and from the outputs
     of the earlier steps listed in edges[i]."""
     def out(i):
@@ -477,10 +477,10 @@ def f_needgraph(needs=("DEFAULT", "DEFAULT"), edges=((), ()), amended=0, subplan
     files = {"src.txt": "src\n", **scripts}
     statics = ["static", "src.txt", *sorted(scripts)]
     if subplan:
-        files["plan.py"] = script([[*statics, "sub.py"], steps[0], ["plan", "./sub.py"]])
+        files["plan.py"] = script([[*statics, "sub.py"], steps[0], ["plan", "./sub.py"]], v=v)
         files["sub.py"] = script(steps[1:])
     else:
-        files["plan.py"] = script([statics, *steps])
+        files["plan.py"] = script([statics, *steps], v=v)
     return files
 
 
